@@ -273,16 +273,25 @@ def check_convert(rep: Report, prog: Program) -> None:
             continue
         if isinstance(v, ast.Name) and v.id in family:
             continue
-        coef = None
-        parts = affine_parts(v)
-        if parts:
-            a0, a1 = parts
-            if isinstance(a0, ast.Name) and a0.id in family:
-                coef = a1
-            elif isinstance(a1, ast.Name) and a1.id in family:
-                coef = a0
-        n_updates += 1
-        rep.check("R05.2", key, coef is not None and not depends_on_magnitude(coef),
+        def coefficients(e: ast.AST, depth: int = 0) -> Optional[List[ast.AST]]:
+            """c1, c2, .. when e is the accumulator combined with them by * / + - (also nested: _add(_mul(m, c1), c2))"""
+            if isinstance(e, ast.Name) and e.id in family:
+                return []
+            pp = affine_parts(e) if depth < 4 else None
+            if not pp:
+                return None
+            x0, x1 = pp
+            inner = coefficients(x0, depth + 1)
+            if inner is not None:
+                return inner + [x1]
+            inner = coefficients(x1, depth + 1)
+            if inner is not None:
+                return inner + [x0]
+            return None
+        coefs = coefficients(v)
+        coef = coefs[0] if coefs else None
+        n_updates += len(coefs) if coefs else 1
+        rep.check("R05.2", key, bool(coefs) and not any(depends_on_magnitude(c) for c in coefs),
                   f"`{ast.unparse(n)}` is not an affine update magnitude*c / magnitude+c with c independent of the "
                   "magnitude: conversion would not be a linear scaling for fixed units", fi.where(n))
     if n_updates < 2:
@@ -363,11 +372,18 @@ def check_path_search(rep: Report, prog: Program) -> None:
         return closure_names(e, defs, stop=loopvars | {start, end})[0]
     cats = [n for n in ast.walk(lp) if isinstance(n, ast.BinOp) and isinstance(n.op, ast.Add)
             and any(isinstance(s, ast.List) for s in (n.left, n.right))]
-    okorder = bool(cats)
+    # ... or as a display with the rest unpacked behind it: [(scale, offset, intermediate), *path]
+    stars = [n for n in ast.walk(lp) if isinstance(n, ast.List) and any(isinstance(x, ast.Starred) for x in n.elts)]
+    okorder = bool(cats) or bool(stars)
     for c in cats:
         hop_first = isinstance(c.left, ast.List)
         lst = c.left if hop_first else c.right
         names = deep_names(lst)
+        okorder = okorder and hop_first and {scale, inter} <= names and (offvar is None or offvar in names)
+    for d in stars:
+        plain = [x for x in d.elts if not isinstance(x, ast.Starred)]
+        hop_first = bool(plain) and not isinstance(d.elts[0], ast.Starred) and all(isinstance(x, ast.Starred) for x in d.elts[len(plain):])
+        names = set().union(*[deep_names(x) for x in plain]) if plain else set()
         okorder = okorder and hop_first and {scale, inter} <= names and (offvar is None or offvar in names)
     rep.check("R05.4", "_find_path_recursive:hop-order", okorder,
               "the hop to the intermediate is not placed before the rest of the path as (scale, offset, intermediate)",
